@@ -204,9 +204,9 @@ def compute_domains_alldifferent(domains: NDArray, parameters: NDArray) -> int:
     n = len(domains)
     ranks = np.zeros((n, 2), dtype=np.uint16)
     bounds_nb = 2 * n + 2
-    bounds = np.zeros(bounds_nb, dtype=np.int32)
+    bounds = np.zeros(bounds_nb, dtype=np.int64)  # 64 bits: two 32-bit bounds can be more than 2^31 apart
     t = np.zeros(bounds_nb, dtype=np.uint16)  # critical capacity pointers
-    d = np.zeros(bounds_nb, dtype=np.int32)  # differences between critical capacities
+    d = np.zeros(bounds_nb, dtype=np.int64)  # differences between critical capacities
     h = np.zeros(bounds_nb, dtype=np.uint16)  # Hall interval pointers
     min_sorted_vars = np.argsort(domains[:, MIN])
     max_sorted_vars = np.argsort(domains[:, MAX])
